@@ -404,6 +404,10 @@ func Cond(r *core.Rand, o Opts, depth int) string {
 				// scans as a regex token but does not compile: the statement is rejected
 				return ident(r, tagPool, o.SafeNames) + " " + r.Pick([]string{"=~", "!~"}) + " " + r.Pick([]string{"/^(web|db$/", "/[/", "/a{2,1}/", "/web(/"})
 			}
+			if r.Chance(o.Odd, 50) {
+				// a regex operand that is part of a larger expression (operators bind tighter than =~)
+				return ident(r, tagPool, o.SafeNames) + " " + r.Pick([]string{"=~", "!~"}) + " " + r.Pick([]string{"/^a$/", "/re/", "/^(a|b)$/"}) + " " + r.Pick([]string{"+ 1", "* 2", "- f0", "/ 2", "% 3", "& 1"})
+			}
 			return ident(r, tagPool, o.SafeNames) + " " + r.Pick([]string{"=~", "!~"}) + " " + r.Pick([]string{"/^a$/", "/^(a|b)$/", "/serv.*/", "/^server0[12]$/", "/(?i)^a$/", "/a/", "/^$/"})
 		case 3:
 			return r.Pick([]string{"true", "false"})
